@@ -49,6 +49,7 @@ type FuncContract struct {
 	Line       int
 	Used       bool
 	Ghost      []*GhostAssign
+	Trusts     []*Clause
 }
 
 type PureFunc struct {
@@ -104,7 +105,7 @@ func newContracts() *Contracts {
 var reHeader = regexp.MustCompile(`^func\s*(\(\s*(\w+)?\s*(\*?)\s*([\w.]+)\s*\))?\s*([\w$.]+)\s*(\((.*)\))?`)
 var reClauseName = regexp.MustCompile(`^#([\w.$@-]+)\s*(\[([^\]]*)\])?\s*:\s*`)
 
-var subKeywords = map[string]bool{"props": true, "requires": true, "ensures": true, "modifies": true, "loop": true, "inline": true, "trusted": true, "flag": true, "pure": true, "ghost": true}
+var subKeywords = map[string]bool{"props": true, "requires": true, "ensures": true, "modifies": true, "loop": true, "inline": true, "trusted": true, "flag": true, "pure": true, "ghost": true, "trusts": true}
 
 // GhostAssign: `ghost x.f := expr` — ghost update performed at function exit (ghost state is never read by
 // executable code, so deferring all ghost updates to the exit is equivalent to performing them in place).
@@ -300,15 +301,19 @@ func (cs *Contracts) loadFile(path string, pkgPath string, isExternFile bool) er
 			} else if len(fields) == 2 {
 				cur.Flags[fields[1]] = "true"
 			}
-		case "requires", "ensures":
+		case "requires", "ensures", "trusts":
 			c, err := parseClause(rest, l)
 			if err != nil {
 				return fail(l, "%v", err)
 			}
-			if kw == "requires" {
+			switch kw {
+			case "requires":
 				cur.Requires = append(cur.Requires, c)
-			} else {
+			case "ensures":
 				cur.Ensures = append(cur.Ensures, c)
+			default:
+				// trusts: a postcondition assumed at call sites but NOT proved for the body (listed as an assumption)
+				cur.Trusts = append(cur.Trusts, c)
 			}
 		case "modifies":
 			cur.HasMod = true
